@@ -56,7 +56,7 @@ def run_attrs(pid, tier):
         defs = {x["name"]: x for x in m["defs"]}
         T, V, E = defs["T"], defs["V"], defs["E"]
         h, vf = m["impls"][0]["funcs"][0], V["vft"]["funcs"][0]
-        it = {n: proj_item(obs, ["m", n]) for n in ("T", "V", "VVftable", "D", "DV", "E")}
+        it = {n: proj_item(obs, ["m", n]) for n in ("T", "V", "VVftable", "D", "DV", "E", "Bt")}
         files = {tuple(f["rel"][:-3].split("/")): f.get("proj") for f in obs.get("files", [])}
         fproj = files.get(("m",))
         p = []
@@ -100,6 +100,7 @@ def run_attrs(pid, tier):
         eq("T packed", bool(it["T"].get("repr", {}).get("packed")), T["packed"])
         if T["packed"]:
             eq("T align attribute on a packed type", it["T"].get("repr", {}).get("align"), NONE)
+        eq("Bt packed (a byte-aligned type that is not declared packed)", bool(it["Bt"].get("repr", {}).get("packed")), False)
         eq("V derives", marker(it["V"].get("derives")), []); eq("VVftable derives", marker(it["VVftable"].get("derives")), [])
         eq("T doc", it["T"]["doc"], T["doc"]); eq("V doc", it["V"]["doc"], V["doc"]); eq("E doc", it["E"]["doc"], E["doc"])
         eq("field f doc", fld(it["T"], "f")["doc"], T["fields"][0]["doc"])
